@@ -261,7 +261,7 @@ func init() {
 			w := GenWorld(r.Sub("world", 0), p, paramTables)
 			// tillage of any depth (deeper than the 30-40 cm mineralisation zone, deeper than a shallow profile)
 			for i := range w.Till {
-				w.Till[i].Depth = r.PickI([]int{5, 10, 20, 30, 40, 50, 60, 80, 100, 150, 200})
+				w.Till[i].Depth = r.PickI([]int{5, 10, 15, 20, 25, 28, 30, 40, 45, 50, 60, 80, 100, 150, 200})
 			}
 			if idx%3 == 0 {
 				// legume days with many sub-steps: storms inside the growing season
